@@ -17,10 +17,13 @@ Inductive action :=
 | Quiet                (* nothing *)
 | Rx (chunks : N)      (* that many recv()s return bytes of an unfinished request head *)
 | Req (chunks : N)     (* likewise, and the last one completes a persistent request *)
-| ReqClose (chunks : N). (* likewise, completing a non-persistent request (Connection: close) *)
+| ReqClose (chunks : N)  (* likewise, completing a non-persistent request (Connection: close) *)
+| Rewind.              (* not a service pass: http Server.wind to a tymist whose tyme is the step's tyme;
+                          from here on pass tymes are on that time base *)
 
 Definition has_traffic (a : action) : bool :=
-  match a with Quiet => false | Rx k | Req k | ReqClose k => (0 <? k)%N end.
+  match a with Quiet | Rewind => false | Rx k | Req k | ReqClose k => (0 <? k)%N end.
+Definition is_wind (a : action) : bool := match a with Rewind => true | _ => false end.
 
 (* one pass: tyme, client action, and how many bytes the kernel accepts from one
    send() in this pass (0 = would block: the peer is not reading) *)
@@ -34,7 +37,8 @@ Record conn := { st : Z;            (* tymer._start *)
                  persisted : bool;  (* some request was persistent: tymeout zeroed for good *)
                  responding : bool; (* a non-persistent request is complete: no parser any more *)
                  pend : N;          (* len(remoter.txbs) *)
-                 last : Z }.        (* ghost: tyme of the latest pass in which bytes moved (accept tyme at first) *)
+                 last : Z }.        (* ghost: tyme of the latest pass in which bytes moved, or of the latest
+                                       wind if later (accept tyme at first), on the time base in force *)
 
 (* Remoter(tymeout=T) created at tyme t0: Tymer(duration=T) started at t0 *)
 Definition accept (T t0 : Z) : conn :=
@@ -79,11 +83,12 @@ Definition sends (now : Z) (cap : N) (c : conn) : conn :=
 
 (* one Server.service() at tyme [now]: serviceConnects (timeout check), serviceReceivesAllIx
    (refresh), serviceReqs (checkPersisted, response queued), serviceReps (non-persistent
-   response completely out: close), serviceSendsAllIx *)
+   response completely out: close), serviceSendsAllIx; or, for Rewind, Server.wind *)
 Definition pass (R : N) (p : step) (c : conn) : conn :=
   match p with
   | (now, a, cap) =>
     if closed c then c
+    else if is_wind a then refresh now c     (* Remoter.wind -> Tymer.wind -> start(): restart at the new tyme *)
     else if (0 <? tmo c) && expired now c then close true c
     else
       let c1 := if has_traffic a then refresh now c else c in
@@ -104,8 +109,9 @@ Fixpoint run (R : N) (c : conn) (sched : list step) : conn :=
 Definition moved (R : N) (p : step) (c : conn) : bool :=
   match p with
   | (now, a, cap) =>
-    has_traffic a ||
-    (let c2 := requests R a c in (0 <? pend c2)%N && (0 <? cap)%N && negb (responding c2 && (pend c2 =? 0)%N))
+    negb (is_wind a) &&
+    (has_traffic a ||
+     (let c2 := requests R a c in (0 <? pend c2)%N && (0 <? cap)%N && negb (responding c2 && (pend c2 =? 0)%N)))
   end.
 (* a pass in which the client sends nothing and the kernel accepts nothing *)
 Definition blocked (p : step) : bool :=
@@ -116,7 +122,8 @@ Definition no_req (sched : list step) : bool := forallb (fun p => negb (is_req (
 Fixpoint busy (R : N) (T : Z) (c : conn) (sched : list step) : Prop :=
   match sched with
   | [] => True
-  | p :: r => (closed c = false -> fst (fst p) < last c + T) /\ busy R T (pass R p c) r
+  | p :: r => (closed c = false -> is_wind (snd (fst p)) = false -> fst (fst p) < last c + T) /\
+              busy R T (pass R p c) r
   end.
 
 (* ---------- correspondence ---------- *)
@@ -148,6 +155,7 @@ Definition branch (R : N) (p : step) (c : conn) : list nat :=
   | (now, a, cap) =>
     let armed := 0 <? tmo c in
     let edge := now =? sp c - 1 in
+    let back := now <? st c in
     let c2 := requests R a (if has_traffic a then refresh now c else c) in
     let stuck := (0 <? pend c)%N in
     let out := (0 <? pend c2)%N in
@@ -155,12 +163,14 @@ Definition branch (R : N) (p : step) (c : conn) : list nat :=
     let part := (cap <? pend c2)%N in
     let done := responding c2 && (pend c2 =? 0)%N in
     (if closed c then [0]
+     else if is_wind a then [if back then 19 else 20]
      else if armed && expired now c then [if stuck then 11 else 1]
      else (match a with
            | Quiet => if persisted c then 2 else if armed then 3 else 4
            | Rx _ => if persisted c then 5 else if armed then (if edge then 6 else 7) else 8
            | Req _ => if responding c then 17 else if persisted c then 9 else 10
            | ReqClose _ => if responding c then 17 else 16
+          | Rewind => 0
            end)
           :: [if done then 12 else if out then (if some then (if part then 13 else 14) else 15) else 18])%nat
   end.
@@ -169,5 +179,5 @@ Fixpoint branches (R : N) (c : conn) (sched : list step) : list nat :=
   | [] => []
   | p :: r => branch R p c ++ branches R (pass R p c) r
   end.
-Definition n_branches : nat := 19.
+Definition n_branches : nat := 21.
 Definition case_branches (k : case) : list nat := branches (k_R k) (accept (k_T k) (k_t0 k)) (k_sched k).
